@@ -38,6 +38,9 @@ type GenCfg struct {
 	NoAltRepr   bool     // render leaves with their exact Go type only
 	ForceCatch  bool     // make sure at least one primitive has Catch
 	NoDataTests bool     // struct / slice level tests are data-independent (pass / fail, no contains)
+	PCoercer    float64  // per primitive/slice: WithCoercer(custom)
+	PLayout     float64  // per time node: z.Time.Format(layout)
+	GlobalKinds []string // base kinds (string,int,float64,bool,time,slice) whose global coercer is overridden in this run
 	PClean      float64  // probability that a case gets no input perturbation at all (PVary/PAbsent/PJunk scaled to 0)
 	PLight      float64  // probability that the perturbation probabilities are scaled by 0.25
 }
@@ -542,6 +545,7 @@ func (g *Gen) GenNode(depth int, root bool) *Node {
 			n.Catch = &c
 		}
 		g.genLeafTests(n, w)
+		g.genCoercer(n)
 		if g.p(g.Cfg.PPost, "post") {
 			n.Posts = append(n.Posts, PostSpec{Behaviour: "mutate"})
 		}
@@ -594,6 +598,7 @@ func (g *Gen) GenNode(depth int, root bool) *Node {
 			}
 			n.Def = &d
 		}
+		g.genCoercer(n)
 		if g.p(g.Cfg.PPost, "spost") {
 			n.Posts = append(n.Posts, PostSpec{Behaviour: "mutate"})
 		}
@@ -667,6 +672,40 @@ func (g *Gen) GenNode(depth int, root bool) *Node {
 		n.Tests = []TestSpec{{Name: "func", Str: n.CustomFn, Opts: o}}
 	}
 	return n
+}
+
+// TimeLayouts are the layouts used with z.Time.Format.
+var TimeLayouts = []string{time.RFC3339, "2006-01-02", time.RFC1123Z, "02/01/2006 15:04", time.RFC3339Nano}
+
+// BaseKind maps a node kind to the conf.Coercers entry it uses.
+func BaseKind(kind string) string {
+	switch kind {
+	case KInt, KInt32, KInt64:
+		return KInt
+	case KFloat32, KFloat64:
+		return KFloat64
+	}
+	return kind
+}
+
+func (g *Gen) genCoercer(n *Node) {
+	switch {
+	case g.p(g.Cfg.PCoercer, "coercer"):
+		n.Coercer = "custom"
+	case n.Kind == KTime && g.p(g.Cfg.PLayout, "layout"):
+		n.Layout = pick(g, TimeLayouts, "lay")
+	default:
+		for _, k := range g.Cfg.GlobalKinds {
+			if k == BaseKind(n.Kind) {
+				n.Coercer = "global"
+			}
+		}
+	}
+	if n.Coercer != "" && n.Kind != KSlice {
+		// the coerced value is a function of the raw input: tests tuned to the witness make no sense
+		n.Tests = nil
+		n.Def = nil
+	}
 }
 
 func (g *Gen) pickKind(depth int, root bool) string {
@@ -850,11 +889,12 @@ func (g *Gen) Render(n *Node, v Val, pos string) (Val, bool) {
 
 // altRepr picks one of the documented equivalent representations of a typed leaf.
 func (g *Gen) altRepr(n *Node, v Val) Val {
-	if n.Coercer == "custom" {
-		return v
+	if n.Coercer != "" {
+		// any present scalar is acceptable input for a custom coercer
+		return pick(g, []Val{v, Str("raw"), Int(12345), F64(2.5), Bool(true), Str("x y"), Int64(-9), Str("COERCE-ERR")}, "craw")
 	}
 	c := g.intn(0, 9, "repr")
-	if c < 5 {
+	if c < 5 && n.Layout == "" {
 		return v
 	}
 	switch n.Kind {
@@ -942,6 +982,12 @@ func (g *Gen) altRepr(n *Node, v Val) Val {
 		}
 	case KTime:
 		t := mustTime(v.S)
+		if n.Layout != "" {
+			if c <= 7 {
+				return Str(t.Format(n.Layout))
+			}
+			return v
+		}
 		switch c {
 		case 5, 6:
 			return Str(t.Format(time.RFC3339Nano))
